@@ -38,6 +38,25 @@ func (v *Volumes) Scan(src interface{}) error {
 	return nil
 }
 
+// UnmarshalJSON refuses volumes lacking one of their sides: everything downstream (Copy, Balance,
+// MarshalJSON, the SQL Value) dereferences both, and volumes come in from outside with the logs of an
+// import stream.
+func (v *Volumes) UnmarshalJSON(data []byte) error {
+	type volumes struct {
+		Input  *big.Int `json:"input"`
+		Output *big.Int `json:"output"`
+	}
+	aux := volumes{}
+	if err := json.Unmarshal(data, &aux); err != nil {
+		return err
+	}
+	if aux.Input == nil || aux.Output == nil {
+		return fmt.Errorf("invalid volumes: input and output are required")
+	}
+	v.Input, v.Output = aux.Input, aux.Output
+	return nil
+}
+
 func (Volumes) JSONSchemaExtend(schema *jsonschema.Schema) {
 	inputProperty, _ := schema.Properties.Get("input")
 	schema.Properties.Set("balance", inputProperty)
@@ -132,15 +151,27 @@ func (a PostCommitVolumes) SubtractPostings(postings Postings) PostCommitVolumes
 }
 
 func (a PostCommitVolumes) AddInput(account, asset string, input *big.Int) {
-	volumes := a[account][asset].Copy()
+	volumes := a.volumesOf(account, asset)
 	volumes.Input.Add(volumes.Input, input)
 	a[account][asset] = volumes
 }
 
 func (a PostCommitVolumes) AddOutput(account, asset string, output *big.Int) {
-	volumes := a[account][asset].Copy()
+	volumes := a.volumesOf(account, asset)
 	volumes.Output.Add(volumes.Output, output)
 	a[account][asset] = volumes
+}
+
+// volumesOf returns a copy of the volumes of (account, asset), empty ones when the set has none: the set
+// of an imported transaction need not cover the accounts of its postings.
+func (a PostCommitVolumes) volumesOf(account, asset string) Volumes {
+	if _, ok := a[account]; !ok {
+		a[account] = VolumesByAssets{}
+	}
+	if volumes, ok := a[account][asset]; ok {
+		return volumes.Copy()
+	}
+	return NewEmptyVolumes()
 }
 
 func (a PostCommitVolumes) Copy() PostCommitVolumes {
